@@ -53,6 +53,15 @@ def lines(head, muts, chunk=CHUNK):
     return out
 
 
+def thin(rng, muts, k):
+    """a sample of k mutations that keeps the range substitutions (+n, -n) of the first components"""
+    if len(muts) <= k:
+        return muts
+    must = [m for m in muts if m.endswith(":+n") or m.endswith(":-n")][:4]
+    rest = [m for m in muts if m not in must]
+    return must + rng.sample(rest, max(0, k - len(must)))
+
+
 def pick_lens(rng, quick, k):
     return [0, 200] + rng.sample(MSG_LENS[1:-1], k) if quick else list(MSG_LENS)
 
@@ -60,71 +69,83 @@ def pick_lens(rng, quick, k):
 # ------------------------------------------------------------------ schemes over E(F_p)
 def pok_cases(rng, ids, tier):
     quick = tier == "quick"
-    nf = 2 if quick else 16
+    nf = 1 if quick else 8
     out = []
-    for cid, nbits in ids:
-        muts = bn_muts(rng, "c", nbits, nf) + bn_muts(rng, "r", nbits, nf) + pt_muts(rng, "y", 1 if quick else 6)
+    for ci, (cid, nbits) in enumerate(ids):
+        muts = bn_muts(rng, "c", nbits, nf) + bn_muts(rng, "r", nbits, nf) + pt_muts(rng, "y", 1 if quick else 4)
         muts += ["cp:y:fy", "swap:c:r"]
+        if quick and ci:
+            muts = thin(rng, muts, 10)
         out += lines("pokdl %d %s" % (cid, seed(rng)), muts)
         muts = []
         for c in ("c0", "c1", "r0", "r1"):
-            muts += bn_muts(rng, c, nbits, 1 if quick else 8, full=(c in ("c1", "r0") or not quick))
-        muts += pt_muts(rng, "y0", 1 if quick else 4, full=not quick) + pt_muts(rng, "y1", 1 if quick else 4)
+            muts += bn_muts(rng, c, nbits, 1 if quick else 4, full=(c in ("c1", "r0") or not quick))
+        muts += pt_muts(rng, "y0", 1 if quick else 2, full=not quick) + pt_muts(rng, "y1", 1 if quick else 2)
         muts += ["swap:y0:y1", "cp:y0:fy", "cp:y1:fy", "swap:c0:c1", "swap:r0:r1", "swap:c0:c1,swap:r0:r1,swap:y0:y1", "swap:c0:r0"]
+        if quick:
+            muts = thin(rng, muts, 16 if ci else 40)
         out += lines("pokor %d %s" % (cid, seed(rng)), muts)
     return out
 
 
 def sok_cases(rng, ids, tier):
     quick = tier == "quick"
-    nf = 2 if quick else 16
+    nf = 1 if quick else 8
     out = []
     for ci, (cid, nbits) in enumerate(ids):
         m = rmsg(rng, rng.choice([5, 10, 20]))
-        muts = bn_muts(rng, "c", nbits, nf) + bn_muts(rng, "s", nbits, nf) + pt_muts(rng, "y", 1 if quick else 6)
-        muts += ["cp:y:fy", "swap:c:s"] + msg_muts(rng, m, 2 if quick else 10)
+        muts = bn_muts(rng, "c", nbits, nf) + bn_muts(rng, "s", nbits, nf) + pt_muts(rng, "y", 1 if quick else 4)
+        muts += ["cp:y:fy", "swap:c:s"] + msg_muts(rng, m, 2 if quick else 8)
+        if quick and ci:
+            muts = thin(rng, muts, 10)
         out += lines("sokdl %d %s %s" % (cid, seed(rng), hx(m)), muts)
-        for n in pick_lens(rng, quick, 2):
+        for n in (pick_lens(rng, quick, 1 if ci else 3) if quick or ci in (0, len(ids) - 1) else [0, 64, 200]):
             m = rmsg(rng, n)
-            out += lines("sokdl %d %s %s" % (cid, seed(rng), hx(m)), msg_muts(rng, m, 1)[:3] + ["s:+n"])
+            out += lines("sokdl %d %s %s" % (cid, seed(rng), hx(m)), msg_muts(rng, m, 1)[: (2 if quick else 3)] + ["s:+n"])
         # the OR signature: implicit generator / explicit generators, witness for the first / the second statement
         variants = [(0, 0), (0, 1), (1, 0), (1, 1)]
         if quick:
             variants = [variants[ci % 4], variants[(ci + 3) % 4]]
+        elif ci >= 2:
+            variants = [variants[ci % 4]]
         for vi, (gflag, first) in enumerate(variants):
             m = rmsg(rng, rng.choice([5, 10, 20]))
             muts = []
             for c in ("c0", "c1", "s0", "s1"):
-                muts += bn_muts(rng, c, nbits, 1 if quick else 8, full=(vi == 0 or not quick))
+                muts += bn_muts(rng, c, nbits, 1 if quick else 4, full=(vi == 0 or not quick))
             muts += pt_muts(rng, "y0", 1, full=not quick) + pt_muts(rng, "y1", 1, full=not quick)
             muts += ["swap:y0:y1", "cp:y%d:fy" % (1 - first), "swap:c0:c1", "swap:s0:s1", "swap:c0:c1,swap:s0:s1,swap:y0:y1"]
             if gflag:
                 muts += pt_muts(rng, "g0", 1, full=not quick) + pt_muts(rng, "g1", 1, full=not quick)
                 muts += ["swap:g0:g1", "swap:g0:g1,swap:c0:c1,swap:s0:s1,swap:y0:y1"]
             muts += msg_muts(rng, m, 1 if quick else 6)
+            if quick:
+                muts = thin(rng, muts, 12 if ci else (40 if vi == 0 else 20))
             out += lines("sokor %d %s %d %d %s" % (cid, seed(rng), gflag, first, hx(m)), muts)
-        for n in pick_lens(rng, quick, 1):
+        for n in (pick_lens(rng, quick, 0 if ci else 2) if quick or ci in (0, len(ids) - 1) else [0, 64, 200]):
             m = rmsg(rng, n)
-            out += lines("sokor %d %s %d %d %s" % (cid, seed(rng), rng.choice([0, 1]), rng.choice([0, 1]), hx(m)), msg_muts(rng, m, 1)[:3])
+            out += lines("sokor %d %s %d %d %s" % (cid, seed(rng), rng.choice([0, 1]), rng.choice([0, 1]), hx(m)), msg_muts(rng, m, 1)[:2])
     return out
 
 
 def vbnn_cases(rng, ids, tier):
     quick = tier == "quick"
     out = []
-    for cid, nbits in ids:
+    for ci, (cid, nbits) in enumerate(ids):
         ident = rmsg(rng, 10)
         m = rmsg(rng, rng.choice([5, 10, 34]))
-        muts = bn_muts(rng, "z", nbits, 2 if quick else 16) + bn_muts(rng, "hh", nbits, 2 if quick else 16)
-        muts += pt_muts(rng, "R", 1 if quick else 6) + pt_muts(rng, "mpk", 1 if quick else 6)
+        muts = bn_muts(rng, "z", nbits, 1 if quick else 8) + bn_muts(rng, "hh", nbits, 1 if quick else 8)
+        muts += pt_muts(rng, "R", 1 if quick else 4) + pt_muts(rng, "mpk", 1 if quick else 4)
         muts += ["cp:mpk:fmpk", "cp:R:fR", "fsig", "swap:z:hh", "swap:R:mpk"]
         muts += msg_muts(rng, m, 2 if quick else 10) + msg_muts(rng, ident, 2 if quick else 8, key="id")
         muts += ["id=%s,m=%s" % (hx(ident[:-1]), hx(ident[-1:] + m)), "id=.", "m=."]     # the same concatenation, split elsewhere
+        if quick and ci:
+            muts = thin(rng, muts, 14)
         out += lines("vbnn %d %s %s %s" % (cid, seed(rng), hx(ident), hx(m)), muts)
-        for n in pick_lens(rng, quick, 2):
+        for n in (pick_lens(rng, quick, 0 if ci else 2) if quick or ci in (0, len(ids) - 1) else [0, 64, 200]):
             m = rmsg(rng, n)
             ident = rmsg(rng, rng.choice([0, 1, 10, 64]))
-            out += lines("vbnn %d %s %s %s" % (cid, seed(rng), hx(ident), hx(m)), msg_muts(rng, m, 1)[:3] + ["z:+n"])
+            out += lines("vbnn %d %s %s %s" % (cid, seed(rng), hx(ident), hx(m)), msg_muts(rng, m, 1)[:2] + ["z:+n"])
     return out
 
 
@@ -141,7 +162,7 @@ def ring_cases(rng, ids, tier):
     quick = tier == "quick"
     out = []
     for ci, (cid, nbits) in enumerate(ids):
-        sizes = [1, 3] if quick else [1, 2, 3, 4]
+        sizes = [1, 3] if quick else ([1, 2, 3, 4] if ci == 0 else [2])
         for size in sizes:
             m = rmsg(rng, rng.choice([5, 10, 20]))
             muts = bn_muts(rng, "td", nbits, 1 if quick else 8) + pt_muts(rng, "pp", 1, full=not quick)
@@ -153,28 +174,33 @@ def ring_cases(rng, ids, tier):
             if size > 1:
                 muts += ["ring:rot", "swap:pk0:pk1", "swap:h0:h1", "swap:c00:c10", "swap:h0:h1,swap:pk0:pk1", "cp:pk%d:fpk" % (size - 1),
                          "h0:dbl,td:bit:0"]
+            if quick:
+                muts = thin(rng, muts, 30)
             out += lines("ers %d %s %d %s" % (cid, seed(rng), size, hx(m)), muts, chunk=8)
         for n in pick_lens(rng, quick, 1):
             m = rmsg(rng, n)
             out += lines("ers %d %s 2 %s" % (cid, seed(rng), hx(m)), msg_muts(rng, m, 1)[:3])
         # same-message linkable version
-        for size in ([2] if quick else [1, 2, 3]):
+        for size in ([2] if quick else ([1, 3] if ci == 0 else [2])):
             m = rmsg(rng, rng.choice([5, 10, 20]))
             muts = bn_muts(rng, "td", nbits, 1, full=not quick) + ["pp:dbl"]
-            for j in range(size if not quick else 1):
+            for j in (range(size) if not quick else [0]):
                 muts += ring_entry_muts(rng, j, nbits, quick, names=("d", "t"))
-                if not quick:
+                if not quick and j == 0:
                     muts += ring_entry_muts(rng, j, nbits, quick)
                 muts += pt_muts(rng, "tau%d" % j, 1, full=not quick) + ["pk%d:dbl" % j, "h%d:neg" % j, "cp:pk%d:fpk" % j, "c%d0:+n" % j, "s%d1:bit:3" % j]
             muts += ["ring:drop"] + msg_muts(rng, m, 1 if quick else 6)
             if size > 1:
                 muts += ["ring:rot", "swap:pk0:pk1", "swap:tau0:pk0", "swap:d00:c00", "swap:tau0:tau1", "tau0:dbl,tau1:dbl"]
+            if quick:
+                muts = thin(rng, muts, 30)
             out += lines("smlers %d %s %d %s" % (cid, seed(rng), size, hx(m)), muts, chunk=6)
-        for n in pick_lens(rng, quick, 0 if ci else 1):
+        for n in (pick_lens(rng, quick, 0 if ci else 1) if quick or ci == 0 else [0, 200]):
             m = rmsg(rng, n)
-            out += lines("smlers %d %s 2 %s" % (cid, seed(rng), hx(m)), msg_muts(rng, m, 1)[:2])
+            out += lines("smlers %d %s 2 %s" % (cid, seed(rng), hx(m)), msg_muts(rng, m, 1)[: (1 if quick else 2)])
         # threshold version: plans of sign / extend / join steps
-        plans = [(3, "s"), (3, "se"), (3, "su"), (4, "sue")] if quick else [(2, "s"), (4, "s"), (3, "se"), (3, "see"), (3, "su"), (4, "sue"), (4, "sueu"), (4, "suu")]
+        plans = ([(3, "s"), (3, "se"), (3, "su"), (4, "sue")] if quick or ci else
+                 [(2, "s"), (4, "s"), (3, "se"), (3, "see"), (3, "su"), (4, "sue"), (4, "sueu"), (4, "suu")])
         for mx, plan in plans:
             m = rmsg(rng, rng.choice([5, 10, 20]))
             size = len(plan)
@@ -194,9 +220,9 @@ def ring_cases(rng, ids, tier):
             if quick:
                 muts = muts[:4] + rng.sample(muts[4:], min(len(muts) - 4, 10))
             out += lines("etrs %d %s %d %s %s" % (cid, seed(rng), mx, plan, hx(m)), muts, chunk=5)
-        for n in pick_lens(rng, quick, 0 if ci else 1):
+        for n in (pick_lens(rng, quick, 0 if ci else 1) if quick or ci == 0 else [0, 200]):
             m = rmsg(rng, n)
-            out += lines("etrs %d %s 2 s %s" % (cid, seed(rng), hx(m)), msg_muts(rng, m, 1)[:2])
+            out += lines("etrs %d %s 2 s %s" % (cid, seed(rng), hx(m)), msg_muts(rng, m, 1)[: (1 if quick else 2)])
     return out
 
 
@@ -222,7 +248,9 @@ def cl_cases(rng, tier):
     muts += ["swap:x:y", "swap:a:b", "swap:b:c", "a:dbl,b:dbl,c:dbl", "a:neg,b:neg,c:neg", "x:inf,c:inf", "y:inf,b:inf", "x:inf,y:inf,b:inf,c:inf",
              "a:inf,b:inf,c:inf", "a:dbl,b:dbl"]
     muts += msg_muts(rng, m, 2 if quick else 10)
-    out += lines("cls %s %s" % (seed(rng), hx(m)), muts)
+    if quick:
+        muts = thin(rng, muts, 40)
+    out += lines("cls %s %s" % (seed(rng), hx(m)), muts, chunk=14)
     for n in pick_lens(rng, quick, 2):
         m = rmsg(rng, n)
         out += lines("cls %s %s" % (seed(rng), hx(m)), msg_muts(rng, m, 1)[:3])
@@ -235,7 +263,9 @@ def cl_cases(rng, tier):
     muts += g2_all(rng, ["z", "x", "y"], quick)
     muts += ["swap:x:y", "swap:y:z", "swap:a:A", "swap:b:B", "a:dbl,A:dbl,b:dbl,B:dbl,c:dbl", "z:inf,A:inf", "z:inf,A:inf,B:inf", "A:dbl,B:dbl"]
     muts += msg_muts(rng, m, 2 if quick else 10)
-    out += lines("cli %s %s" % (seed(rng), hx(m)), muts)
+    if quick:
+        muts = thin(rng, muts, 48)
+    out += lines("cli %s %s" % (seed(rng), hx(m)), muts, chunk=12)
     for n in pick_lens(rng, quick, 1):
         m = rmsg(rng, n)
         out += lines("cli %s %s" % (seed(rng), hx(m)), msg_muts(rng, m, 1)[:3])
@@ -253,7 +283,9 @@ def cl_cases(rng, tier):
             muts += msg_muts(rng, ms[j], 1, key="m%d" % j)[:2]
         if l > 1:
             muts += ["m0=%s,m1=%s" % (hx(ms[1]), hx(ms[0])), "a:dbl,b:dbl,c:dbl," + ",".join("A%d:dbl,B%d:dbl" % (j, j) for j in range(l - 1))]
-        out += lines("clb %s %d %s" % (seed(rng), l, " ".join(hx(x) for x in ms)), muts, chunk=8)
+        if quick:
+            muts = thin(rng, muts, 44)
+        out += lines("clb %s %d %s" % (seed(rng), l, " ".join(hx(x) for x in ms)), muts, chunk=11)
     return out
 
 
@@ -270,8 +302,10 @@ def ps_cases(rng, tier):
     muts += g2_all(rng, ["g", "x", "y0"], quick)
     muts += ["swap:x:y0", "swap:g:x", "swap:a:b", "a:dbl,b:dbl", "a:neg,b:neg", "g:inf,x:inf,y0:inf", "g:inf,x:inf,y0:inf,b:inf", "x:inf,y0:inf,b:inf",
              "x:inf,y0:inf", "g:dbl,x:dbl,y0:dbl", "g:neg,x:neg,y0:neg", "g:neg"]
-    out += lines("pss %s %s" % (seed(rng), hx(m)), muts)
-    for n in ([0, 32, 64] if quick else [0, 1, 31, 32, 33, 64, 100]):
+    if quick:
+        muts = thin(rng, muts, 40)
+    out += lines("pss %s %s" % (seed(rng), hx(m)), muts, chunk=14)
+    for n in ([0, 64] if quick else [0, 1, 31, 32, 33, 64, 100]):
         out += lines("pss %s %s" % (seed(rng), hx(rnd_scalar(rng, n))), ["m0:bit:0", "m0:+n"])
     for l in ([3] if quick else [1, 2, 3, 4]):
         ms = [rnd_scalar(rng, rng.choice([0, 1, 16, 32, 40])) for _ in range(l)]
@@ -284,7 +318,9 @@ def ps_cases(rng, tier):
             muts += ["swap:m0:m1", "swap:y0:y1", "swap:m0:m1,swap:y0:y1", "swap:x:y0"]
         muts += ["a:dbl,b:dbl", "g:inf,x:inf,b:inf," + ",".join("y%d:inf" % j for j in range(l)),
                  "g:inf,x:inf," + ",".join("y%d:inf" % j for j in range(l)), "x:inf,b:inf," + ",".join("y%d:inf" % j for j in range(l))]
-        out += lines("psb %s %d %s" % (seed(rng), l, " ".join(hx(x) for x in ms)), muts, chunk=8)
+        if quick:
+            muts = thin(rng, muts, 36)
+        out += lines("psb %s %d %s" % (seed(rng), l, " ".join(hx(x) for x in ms)), muts, chunk=12)
     # two-party versions
     m0, m1 = rnd_scalar(rng, 32), rnd_scalar(rng, 32)
     muts = pt_muts(rng, "a", 1, full=not quick) + pt_muts(rng, "b0", 1, full=not quick) + pt_muts(rng, "b1", 1, full=False)
@@ -292,7 +328,9 @@ def ps_cases(rng, tier):
     muts += g2_all(rng, ["g", "x", "y0"], quick)
     muts += ["swap:b0:b1", "swap:m00:m01", "m00:bit:0,m01:bit:0", "a:dbl,b0:dbl,b1:dbl", "a:dbl,b0:dbl", "x:inf,y0:inf,b0:inf,b1:inf",
              "g:inf,x:inf,y0:inf", "g:inf,x:inf,y0:inf,b0:inf,b1:inf", "swap:x:y0", "g:neg", "g:neg,x:neg,y0:neg"]
-    out += lines("mpss %s %s %s" % (seed(rng), hx(m0), hx(m1)), muts, chunk=8)
+    if quick:
+        muts = thin(rng, muts, 40)
+    out += lines("mpss %s %s %s" % (seed(rng), hx(m0), hx(m1)), muts, chunk=14)
     for l, vflag in ([(2, 0), (2, 1)] if quick else [(1, 0), (2, 0), (3, 0), (1, 1), (2, 1), (3, 1)]):
         ms = [rnd_scalar(rng, rng.choice([1, 16, 32])) for _ in range(2 * l)]
         muts = ["a:inf", "a:dbl", "a:fx:3", "b0:neg", "b1:other", "swap:b0:b1", "a:dbl,b0:dbl,b1:dbl", "g:+T", "g:neg", "x:dbl", "x:inf", "x:fx:%d" % rng.randrange(255)]
@@ -300,7 +338,9 @@ def ps_cases(rng, tier):
             muts += ["m%d0:bit:%d" % (j, rng.randrange(100)), "m%d1:+n" % j, "swap:m%d0:m%d1" % (j, j), "y%d:neg" % j, "y%d:+T" % j, "y%d:inf" % j]
         if l > 1:
             muts += ["swap:m00:m10", "swap:m00:m10,swap:m01:m11", "swap:y0:y1", "swap:m00:m10,swap:m01:m11,swap:y0:y1"]
-        out += lines("mpsb %s %d %d %s" % (seed(rng), l, vflag, " ".join(hx(x) for x in ms)), muts, chunk=8)
+        if quick:
+            muts = thin(rng, muts, 18)
+        out += lines("mpsb %s %d %d %s" % (seed(rng), l, vflag, " ".join(hx(x) for x in ms)), muts, chunk=10)
     return out
 
 
@@ -325,7 +365,9 @@ def lhs_cases(rng, tier):
         muts += msg_muts(rng, data, 1, key="data")[:3]
         muts = [x for x in muts if "flen" not in x or L > 1]
         muts = [x for x in muts if x != "data=" + hx(data + b"\x00")]
-        out += lines("mklhs %s %d %d %s" % (seed(rng), S, L, hx(data)), muts, chunk=8)
+        if quick:
+            muts = thin(rng, muts, 26)
+        out += lines("mklhs %s %d %d %s" % (seed(rng), S, L, hx(data)), muts, chunk=9)
     for n in dlens:
         data = ascii_str(rng, n)
         out += lines("mklhs %s 1 1 %s" % (seed(rng), hx(data)), ["data=" + hx(data + b"x"), "sig:neg"])
@@ -344,7 +386,9 @@ def lhs_cases(rng, tier):
             muts += ["swap:a0:a1", "swap:y0:y1", "swap:z0:z1,swap:sig0:sig1", "swap:pk0:pk1"]
         muts += msg_muts(rng, data, 1, key="data")[:3]
         muts = [x for x in muts if x != "data=" + hx(data + b"\x00")]
-        out += lines("cmlhs %s 1 %d %d %s" % (seed(rng), S, L, hx(data)), muts, chunk=6)
+        if quick:
+            muts = thin(rng, muts, 30)
+        out += lines("cmlhs %s 1 %d %d %s" % (seed(rng), S, L, hx(data)), muts, chunk=8)
     for n in dlens:
         data = ascii_str(rng, n)
         out += lines("cmlhs %s 1 1 1 %s" % (seed(rng), hx(data)), ["data=" + hx(data + b"x")])
@@ -355,6 +399,6 @@ def all_cases(rng, ids, tier):
     """ids: [(curve id, bits of the group order)] accepted by ep_param_set; quick uses the first and the last of them"""
     quick = tier == "quick"
     ec_ids = ids if not quick else ([ids[0], ids[-1]] if len(ids) > 1 else ids)
-    ring_ids = ids if not quick else ids[:1]
+    ring_ids = ids[:1] if quick else ([ids[0], ids[-1]] if len(ids) > 1 else ids)
     return (pok_cases(rng, ec_ids, tier) + sok_cases(rng, ec_ids, tier) + vbnn_cases(rng, ec_ids, tier)
             + ring_cases(rng, ring_ids, tier) + cl_cases(rng, tier) + ps_cases(rng, tier) + lhs_cases(rng, tier))
